@@ -890,10 +890,19 @@ impl Srv {
                                     Ok(g) => { let mut v: Vec<(u32, String)> = g.iter().map(|x| (x.id, x.name.clone())).collect(); v.sort(); v }
                                     Err(e) => return err_json(&e),
                                 };
+                                // what every listed group says about the topic's partitions (group listing and group details)
+                                let mut group_parts: Vec<(u32, u32, u32)> = vec![];
+                                if let Ok(gl) = c.get_consumer_groups(&sident, &tident).await {
+                                    for x in gl.iter() {
+                                        let detail = c.get_consumer_group(&sident, &tident, &Identifier::numeric(x.id).unwrap()).await.ok().flatten().map(|d| d.partitions_count).unwrap_or(u32::MAX);
+                                        group_parts.push((x.id, x.partitions_count, detail));
+                                    }
+                                }
+                                group_parts.sort();
                                 let mut pids: Vec<u32> = td.partitions.iter().map(|p| p.id).collect();
                                 pids.sort();
                                 let by_name = c.get_topic(&sident, &Identifier::named(&td.name).unwrap()).await.ok().flatten().map(|x| x.id);
-                                topics_out.push(json!({"id": td.id, "name": td.name, "parts": pids, "parts_count": td.partitions_count, "groups": groups,
+                                topics_out.push(json!({"id": td.id, "name": td.name, "parts": pids, "parts_count": td.partitions_count, "groups": groups, "group_parts": group_parts,
                                     "msgs": td.messages_count, "by_name": by_name, "expiry": format!("{}", td.message_expiry), "max_size": format!("{}", td.max_topic_size)}));
                             }
                             let by_name = c.get_stream(&Identifier::named(&sd.name).unwrap()).await.ok().flatten().map(|x| x.id);
